@@ -28,9 +28,9 @@ P = {'id': 'C14',
              'reference oracles in harness/src/c14.rs (std::str::from_utf8, slice::cmp, naive search, bit loops, bitwise CRC, RFC 4648 tables)'],
  'assumptions': ['x86_64 little endian, usize = 64 bits',
                  'agreement of the kernels with the scalar definitions is established on the generated cases only (all lengths 0..=130 and around 256/4096, '
-                 'all 64 alignments, guard pages on both sides) in each of four dispatch tiers'],
- 'level_text': 'Differential check of every public accelerated entry point against a dumb scalar oracle, in four dispatch tiers (native, AVX-512 masked, '
-               'AVX2 masked, everything masked) with inputs bracketed by guard pages, plus machine-checked Coq theorems that the scalar definitions are the '
+                 'all 64 alignments, guard pages on both sides; operation histories on shared buffers; 2^16 / 2^20-byte inputs) in each of six dispatch tiers'],
+ 'level_text': 'Differential check of every public accelerated entry point against a dumb scalar oracle, in six dispatch tiers (native, AVX-512 masked, '
+               'AVX2 masked, everything masked, SSE4.1 without SSE4.2, BMI masked alone) with inputs bracketed by guard pages, plus machine-checked Coq theorems that the scalar definitions are the '
                'mathematical objects the property names and that the loop structure the kernels use (W-byte vector loop + scalar tail for any W, table / '
                'CRC32-instruction CRC loops, hex and Base64 codecs) computes those definitions for all inputs. The intrinsics themselves have no model, so the '
                'level claimed is translation validation with a proved reference, not proof.',
